@@ -224,6 +224,17 @@ static void os_prf(const Args &a) {
     Ev ev("os.prf"); ev.s("kind", k).b("key", key).b("in", d).n("n", (long long)n).n("ret", ret);
     ev.b("out", out.get(n)).n("guard", out.guards_ok()).n("untouched", out.untouched(0, n)); ev.emit();
 }
+// ascon_prf_short with DECLARED lengths far beyond the buffers (2^sin + nin input bytes, 2^sout + nout
+// output bytes; s = -1: just n): every length above 16 must be refused before anything is read or written
+static void os_prf_short_big(const Args &a) {
+    bytes_t key = a.hex("key"); if (key.size() != 16) fatal("prf key size");
+    long long sin = a.num("sin", -1), sout = a.num("sout", -1); size_t nin = (size_t)a.num("nin"), nout = (size_t)a.num("nout");
+    size_t inlen = (sin >= 0 ? ((size_t)1 << sin) : 0) + nin, outlen = (sout >= 0 ? ((size_t)1 << sout) : 0) + nout;
+    bytes_t d(16, 0x3c); InBuf kb(key), in(d); OutBuf out(16);
+    int ret = ascon_prf_short(out.p, outlen, in.p, inlen, kb.p);
+    Ev ev("os.prf_short_big"); ev.n("sin", sin).n("nin", (long long)nin).n("sout", sout).n("nout", (long long)nout).n("ret", ret < 0 ? -1 : ret)
+        .n("guard", out.guards_ok()).n("untouched", out.untouched(0, 16)); ev.emit();
+}
 static void os_mac_verify(const Args &a) {
     bytes_t key = a.hex("key"), d = a.hex("in"), tag = a.hex("tag");
     if (key.size() != 16 || tag.size() != 16) fatal("mac_verify sizes");
@@ -271,7 +282,7 @@ static void os_hmac(const Args &a) {
 void reg_sponge() {
     reg("sp.init", sp_init); reg("sp.absorb", sp_absorb); reg("sp.squeeze", sp_squeeze);
     reg("sp.hmacfinal", sp_hmacfinal); reg("sp.pad", sp_pad); reg("sp.copy", sp_copy); reg("sp.free", sp_free);
-    reg("os.hash", os_hash); reg("os.prf", os_prf); reg("os.mac_verify", os_mac_verify);
+    reg("os.hash", os_hash); reg("os.prf", os_prf); reg("os.prf_short_big", os_prf_short_big); reg("os.mac_verify", os_mac_verify);
     reg("os.kmac", os_kmac); reg("os.kdf", os_kdf); reg("os.hmac", os_hmac);
 }
 void reg_mac() {}
